@@ -15,13 +15,13 @@ E1_ASSUMPTIONS = [
 ]
 
 
-def kani_part(pid, tier, seed, jobs):
+def kani_part(pid, tier, seed, jobs, owner=None):
     import kani
     import props_kani
     hs = [h for h in props_kani.PROPS.get(pid, []) if tier in h.tiers]
     if not hs:
         return [], 0.0
-    log_dir = os.path.join(common.WORK_DIR, pid, "kani-" + tier)
+    log_dir = os.path.join(common.WORK_DIR, owner or pid, "kani-" + tier)
     say(f"[{pid}] E1/Kani: {len(hs)} harnesses, {jobs} slots, tier {tier}")
     results, build_s = kani.run_all(hs, tier, jobs, log_dir, seed)
     obs = []
@@ -97,13 +97,14 @@ def run_property(pid, tier, seed, jobs):
     obligations = []
     assumptions = []
     extra = {}
-    if pid == "C04":
+    if pid in ("C04", "C01"):
+        # C01's run-time half is the helper kernels the generated code calls: the C04 obligations are part of it
         import c04
-        obs, ass, ex = c04.run(tier, seed, jobs)
+        obs, ass, ex = c04.run(tier, seed, jobs, pid)
         obligations += obs
         assumptions += ass
         extra.update(ex)
-    if pid in ("C07", "C04", "C01", "C17"):
+    if pid in ("C07", "C04", "C01", "C13"):
         try:
             import mirx_props
         except ImportError:
@@ -113,7 +114,8 @@ def run_property(pid, tier, seed, jobs):
             obligations += obs
             assumptions += ass
             extra.update(ex)
-    kobs, build_s = kani_part(pid, tier, seed, jobs)
+    # C01's string / collection / range helpers are the C05 kernels
+    kobs, build_s = kani_part("C05" if pid == "C01" else pid, tier, seed, jobs)
     if kobs:
         obligations += kobs
         assumptions += E1_ASSUMPTIONS
